@@ -54,9 +54,17 @@ structure ClassInfo where
   /-- `cls.__hash__ is not None` -/
   hashable : Bool
   /-- the class's effective `__eq__` / `__hash__` is hand-written (neither generated nor
-  `Expression`'s): such classes are outside the model -/
+  `Expression`'s): what it does is described by the record `C01OwnEqInfo` of `ownDefiner` (below) and
+  modelled in lean/PV/Model/EqHashOwn.lean; `eqGen` / `hashGen` do not apply -/
   ownEq : Bool
   ownHash : Bool
+  /-- names of the proper ancestors of the class that are `Expression` subclasses, in MRO order
+  (`Expression` itself excluded); used for `isinstance` tests and for CPython's "a proper subclass
+  on the right is asked first" rule of `==` -/
+  ancestors : List String := []
+  /-- the class in the MRO whose hand-written `__eq__` / `__hash__` the instances run ("" when
+  `ownEq` is false): a record of `C01OwnEqInfo` (below) describes what those methods do -/
+  ownDefiner : String := ""
   deriving Repr, Inhabited
 
 abbrev ClassTable := List ClassInfo
@@ -125,5 +133,108 @@ def ClassTable.frozenFor (t : ClassTable) (c f : String) : Bool :=
 /-- every declared field / init arg of every class is protected against rebinding -/
 def ClassTable.Immutable (t : ClassTable) : Bool :=
   t.all fun i => i.fields.all fun f => t.frozenFor i.name f
+
+/-! ### interpreter mode
+
+`expr_dataclass` creates the dataclass with `frozen=__debug__` (pymbolic/primitives.py; the
+extractor reads this keyword from the decorator's source into `Generated.c01FrozenSource`): the
+`frozen` flag of a record is what the class has in the DEFAULT mode (`__debug__` true); under
+`python -O` the same decorator yields classes that are not frozen. -/
+
+/-- the value of the `frozen=` keyword in the decorator's `dataclass(…)` call -/
+inductive C01FrozenSource where
+  /-- `frozen=__debug__` -/
+  | debugFlag
+  /-- `frozen=True` -/
+  | always
+  /-- `frozen=False` (or no keyword) -/
+  | never
+  deriving Repr, DecidableEq, Inhabited
+
+/-- what `frozen=<src>` evaluates to in an interpreter with `__debug__ = debug` -/
+def C01FrozenSource.eval (src : C01FrozenSource) (debug : Bool) : Bool :=
+  match src with
+  | .debugFlag => debug
+  | .always => true
+  | .never => false
+
+/-- the class table as the interpreter with `__debug__ = debug` builds it: the decorated classes
+are frozen iff the decorator's keyword evaluates to true (and the class was frozen in default mode
+at all) -/
+def ClassTable.inMode (t : ClassTable) (src : C01FrozenSource) (debug : Bool) : ClassTable :=
+  t.map fun i => { i with frozen := i.frozen && src.eval debug }
+
+/-! ### hand-written `__eq__` / `__hash__` (the legacy number-like classes)
+
+`extract/classes.py` reads the SOURCE of the hand-written methods of every class whose effective
+`__eq__` is neither generated nor `Expression`'s (today: `Polynomial`, `Rational`) with `ast` and
+records which of the two known shapes they have and which attributes they mention; any other shape
+is an extraction error.
+
+    polynomial shape                                   rational shape
+      def __eq__(self, other):                           def __eq__(self, other):
+          return (isinstance(other, C)                       if not isinstance(other, C):
+                  and self.A == other.A and …)                   other = C(other)
+                                                             return self.A == other.A and …
+      def __hash__(self):                                def __hash__(self):
+          return hash((type(self).__name__,                  if self.D == 1:
+                       self.A, …))                               return hash(self.N)
+                                                             return hash((type(self).__name__, self.A, …))
+      `__ne__`: `not self.__eq__(other)` (own or `Expression`'s) in both shapes -/
+
+inductive C01OwnShape where
+  | polynomial
+  | rational
+  deriving Repr, DecidableEq, Inhabited
+
+structure C01OwnEqInfo where
+  /-- the class that DEFINES the methods (`C` above) -/
+  name : String
+  shape : C01OwnShape
+  /-- the attributes `__getinitargs__` returns, in order: the positional fields of an instance -/
+  initAttrs : List String
+  /-- the attributes `__eq__` compares (`self.A == other.A and …`), in order -/
+  eqAttrs : List String
+  /-- `__eq__` tests `isinstance(other, C)` (not class identity) -/
+  eqIsinstance : Bool
+  /-- `__eq__` replaces a non-instance operand by `C(other)` -/
+  eqCoerces : Bool
+  /-- the tuple `__hash__` hashes starts with `type(self).__name__` -/
+  hashTagged : Bool
+  /-- … followed by these attributes -/
+  hashAttrs : List String
+  /-- rational shape: `if self.<hashUnitAttr> == 1: return hash(self.<hashUnitValue>)` -/
+  hashUnitAttr : Option String
+  hashUnitValue : Option String
+  /-- `!=` is `not self.__eq__(other)` -/
+  neIsNotEq : Bool
+  /-- the constructor has the expected text (rational: divides numerator and denominator by the
+  unit of the denominator and stores them; polynomial: stores base, `tuple(data)`, unit, order) -/
+  initAsExpected : Bool
+  deriving Repr, Inhabited
+
+/-- the decidable side condition on a record: the hash covers exactly what `__eq__` compares, both
+are init args, `!=` negates `==` -/
+def C01OwnEqInfo.ok (o : C01OwnEqInfo) : Bool :=
+  decide o.initAttrs.Nodup && o.eqIsinstance && o.hashTagged && o.neIsNotEq && o.initAsExpected &&
+  o.hashAttrs == o.eqAttrs && o.eqAttrs.all (o.initAttrs.contains ·) &&
+  (match o.shape with
+   | .polynomial => !o.eqCoerces && o.hashUnitAttr.isNone && o.hashUnitValue.isNone
+   | .rational =>
+       o.eqCoerces && o.initAttrs == o.eqAttrs &&
+       (match o.eqAttrs, o.hashUnitAttr, o.hashUnitValue with
+        | [n, d], some ua, some uv => ua == d && uv == n
+        | _, _, _ => false))
+
+/-- every class with a hand-written `__eq__` has a record (of its definer), is a `legacy` class,
+and brings `__hash__` along from the same definer -/
+def ClassTable.OwnOk (t : ClassTable) (owns : List C01OwnEqInfo) : Bool :=
+  decide (owns.map (·.name)).Nodup && owns.all (·.ok) &&
+  t.all fun i =>
+    if i.ownEq || i.ownHash then
+      i.ownEq && i.ownHash && i.kind == .legacy &&
+      (i.ownDefiner == i.name || i.ancestors.contains i.ownDefiner) &&
+      owns.any (·.name == i.ownDefiner)
+    else i.ownDefiner == ""
 
 end PV
